@@ -26,6 +26,25 @@ Arith(f, x, y) ==
          [] f = "/" -> IF y.v = 0 THEN Err ELSE I(TruncDiv(x.v, y.v))
          [] f = "%" -> IF y.v = 0 THEN Err ELSE I(TruncRem(x.v, y.v))
 
+\* bitwise operators on (two's complement, unbounded) integers; shift counts are small non-negative literals
+RECURSIVE Bits(_, _, _)
+Bits(f, a, b) ==
+  IF a \in {0, 0 - 1} /\ b \in {0, 0 - 1} THEN
+    (CASE f = "&" -> IF a = 0 - 1 /\ b = 0 - 1 THEN 0 - 1 ELSE 0
+       [] f = "|" -> IF a = 0 - 1 \/ b = 0 - 1 THEN 0 - 1 ELSE 0
+       [] f = "^" -> IF a # b THEN 0 - 1 ELSE 0)
+  ELSE LET x == a % 2  y == b % 2
+           bit == CASE f = "&" -> x * y [] f = "|" -> IF x + y > 0 THEN 1 ELSE 0 [] f = "^" -> (x + y) % 2 IN
+       2 * Bits(f, a \div 2, b \div 2) + bit
+RECURSIVE BitPow2(_)
+BitPow2(n) == IF n <= 0 THEN 1 ELSE 2 * BitPow2(n - 1)
+BitOp(f, x, y) ==
+  IF IsErr(x) \/ IsErr(y) THEN Err
+  ELSE IF IsNull(x) \/ IsNull(y) THEN Null
+  ELSE CASE f = "<<" -> IF y.v < 0 \/ y.v > 20 THEN Err ELSE I(x.v * BitPow2(y.v))
+         [] f = ">>" -> IF y.v < 0 \/ y.v > 20 THEN Err ELSE I(x.v \div BitPow2(y.v))
+         [] OTHER -> I(Bits(f, x.v, y.v))
+
 IsCmp(f) == f \in {"=", "<>", "<", "<=", ">", ">="}
 IsArith(f) == f \in {"+", "-", "*", "/", "%"}
 
@@ -36,6 +55,7 @@ ApplyBin(f, x, y) ==
          [] f = "or"  -> Or3(x, y)
          [] f = "isdistinct" -> IsDistinctFrom(x, y)
          [] f = "isnotdistinct" -> IsNotDistinctFrom(x, y)
+         [] f \in {"&", "|", "^", "<<", ">>"} -> BitOp(f, x, y)
 
 ApplyUn(f, x) ==
   IF IsErr(x) THEN Err
@@ -110,12 +130,60 @@ SplitAlt(p, acc) ==
   ELSE IF Head(p) = 8 THEN <<acc>> \o SplitAlt(Tail(p), <<>>)
   ELSE SplitAlt(Tail(p), Append(acc, Head(p)))
 SimilarMatch(s, p, ci) == LET alts == SplitAlt(p, <<>>) IN \E i \in 1..Len(alts) : LikeMatch(s, alts[i], ci)
+(***************************************************************************)
+(* Second string pool (kind "x", used by table C of ExprScope): strings     *)
+(* that contain the LIKE wildcards and regex metacharacters as ORDINARY     *)
+(* characters.  Character codes: 1 a, 2 b, 11 f, 12 o, 13 x, 21 F, 22 O,    *)
+(* 23 X, 31 _, 32 %, 33 .  ; pool order = byte order (= index order).       *)
+(*   [op |-> "likex", f |-> "like"|"ilike", e, toks, neg]   LIKE with the   *)
+(*        pattern given inline: character codes, 101 = % (any string),      *)
+(*        102 = _ (any character); escapes are resolved by the converter    *)
+(*   [op |-> "regex", f |-> "~"|"~*"|"!~"|"!~*", e, re]                     *)
+(*        re = [null, grp, alts]; alts[j] = [s, e, items]; items: character *)
+(*        codes, 203 = . (any character), 204 = .* ;  grp: the pattern is   *)
+(*        ^(alt|alt..)$ (every alternative anchored at both ends), else the *)
+(*        alternatives carry their own ^ / $ and are joined by |; a regex   *)
+(*        without anchors matches anywhere in the string                    *)
+(*   [op |-> "startswith", e, pre]     starts_with(e, pre)                  *)
+(*   [op |-> "nvl", l, r]              nvl / ifnull                         *)
+(***************************************************************************)
+XPoolChars == << <<21, 22, 23, 22>>, <<1>>, <<1, 33, 2>>, <<1, 2>>, <<2>>, <<11, 12, 32, 12>>, <<11, 12, 31, 12>>, <<11, 12, 13, 12>> >>
+XStr(i) == [k |-> "x", v |-> i]
+StrChars(x) == IF x.k = "x" THEN XPoolChars[x.v] ELSE PoolChars[x.v]
+LowerC(c) == IF c \in {21, 22, 23} THEN c - 10 ELSE c
+CEq(c, d, ci) == c = d \/ (ci /\ LowerC(c) = LowerC(d))
+RECURSIVE LikeMatchX(_, _, _)
+LikeMatchX(s, p, ci) ==
+  IF p = <<>> THEN s = <<>>
+  ELSE IF Head(p) = 101 THEN LikeMatchX(s, Tail(p), ci) \/ (s # <<>> /\ LikeMatchX(Tail(s), p, ci))
+  ELSE IF Head(p) = 102 THEN s # <<>> /\ LikeMatchX(Tail(s), Tail(p), ci)
+  ELSE s # <<>> /\ CEq(Head(s), Head(p), ci) /\ LikeMatchX(Tail(s), Tail(p), ci)
+\* items matched against s from position pos; atEnd: the match must end at the end of s
+RECURSIVE ReAt(_, _, _, _, _)
+ReAt(s, pos, items, atEnd, ci) ==
+  IF items = <<>> THEN (~atEnd \/ pos = Len(s) + 1)
+  ELSE IF Head(items) = 204 THEN \E q \in pos..(Len(s) + 1) : ReAt(s, q, Tail(items), atEnd, ci)
+  ELSE IF Head(items) = 203 THEN pos <= Len(s) /\ ReAt(s, pos + 1, Tail(items), atEnd, ci)
+  ELSE pos <= Len(s) /\ CEq(s[pos], Head(items), ci) /\ ReAt(s, pos + 1, Tail(items), atEnd, ci)
+ReAlt(s, a, grp, ci) ==
+  IF grp \/ a.s THEN ReAt(s, 1, a.items, grp \/ a.e, ci)
+  ELSE \E st \in 1..(Len(s) + 1) : ReAt(s, st, a.items, a.e, ci)
+RegexVal(f, x, re) ==
+  IF IsErr(x) THEN Err
+  ELSE IF IsNull(x) \/ re.null THEN Null
+  ELSE LET ci == f \in {"~*", "!~*"}
+           m == \E j \in 1..Len(re.alts) : ReAlt(StrChars(x), re.alts[j], re.grp, ci) IN
+       B(m # (f \in {"!~", "!~*"}))
+IsPrefixSeq(p, s) == Len(p) <= Len(s) /\ SubSeq(s, 1, Len(p)) = p
+StartsWithVal(x, p) ==
+  IF IsErr(x) \/ IsErr(p) THEN Err ELSE IF IsNull(x) \/ IsNull(p) THEN Null ELSE B(IsPrefixSeq(StrChars(p), StrChars(x)))
+
 LikeVal(f, x, p, neg) ==
   IF IsErr(x) \/ IsErr(p) THEN Err
   ELSE IF IsNull(x) \/ IsNull(p) THEN Null
   ELSE LET ci == f \in {"ilike", "isimilar"}
-           m == IF f \in {"similar", "isimilar"} THEN SimilarMatch(PoolChars[x.v], PatPool[p.v], ci)
-                ELSE LikeMatch(PoolChars[x.v], PatPool[p.v], ci) IN
+           m == IF f \in {"similar", "isimilar"} THEN SimilarMatch(StrChars(x), PatPool[p.v], ci)
+                ELSE LikeMatch(StrChars(x), PatPool[p.v], ci) IN
        B(m # neg)
 
 KindLo(k) == CASE k = "i8" -> 0 - 128 [] k = "i16" -> 0 - 32768 [] OTHER -> 0 - 2147483647
@@ -179,6 +247,12 @@ Eval(e, row) ==
     [] e.op = "cast" -> CastV(e.to, e.try, Eval(e.e, row))
     [] e.op = "tbin" -> TArith(e.t, e.f, Eval(e.l, row), Eval(e.r, row))
     [] e.op = "tun" -> TUn(e.t, e.f, Eval(e.e, row))
+    [] e.op = "likex" -> LET x == Eval(e.e, row) IN
+                         IF IsErr(x) THEN Err ELSE IF IsNull(x) THEN Null
+                         ELSE B(LikeMatchX(StrChars(x), e.toks, e.f = "ilike") # e.neg)
+    [] e.op = "regex" -> RegexVal(e.f, Eval(e.e, row), e.re)
+    [] e.op = "startswith" -> StartsWithVal(Eval(e.e, row), Eval(e.pre, row))
+    [] e.op = "nvl" -> EvalCoalesce(<<e.l, e.r>>, row)
 
 \* constructors (used by generators)
 Col(i) == [op |-> "col", i |-> i]
@@ -196,4 +270,8 @@ CaseXE(e, whens, els) == [op |-> "casex", e |-> e, whens |-> whens, else |-> els
 CastE(to, try, e) == [op |-> "cast", to |-> to, try |-> try, e |-> e]
 TBin(t, f, l, r) == [op |-> "tbin", t |-> t, f |-> f, l |-> l, r |-> r]
 TUnE(t, f, e) == [op |-> "tun", t |-> t, f |-> f, e |-> e]
+LikeXE(f, e, toks, neg) == [op |-> "likex", f |-> f, e |-> e, toks |-> toks, neg |-> neg]
+RegexE(f, e, re) == [op |-> "regex", f |-> f, e |-> e, re |-> re]
+StartsWithE(e, pre) == [op |-> "startswith", e |-> e, pre |-> pre]
+NvlE(l, r) == [op |-> "nvl", l |-> l, r |-> r]
 =============================================================================
